@@ -165,6 +165,8 @@ var slotTemplates = []string{
 	"if $ { a = 1 }", "if v := $; v { a = 1 }", "if a { b = $ } else { b = 2 }", "if a { } else if $ { }",
 	"for $ { break }", "for i := $; i < 2; i++ { }", "for i := 0; $; i++ { }", "for i := 0; i < 2; i += $ { }",
 	"for v in $ { a = v }", "for k, v in $ { a = k }",
+	// the blank identifier in either position (a single variable is the VALUE, so `k, _` cannot be shortened)
+	"for k, _ in $ { a = k }", "for _, v in $ { a = v }", "for _ in $ { a = 1 }", "for _, _ in $ { a = 1 }",
 	"v := func() { return $ }", "f($)", "f(1, $)", "f($...)",
 	// expression positions
 	"v := [$]", "v := [1, $]", "v := {k: $}", "v := $ ? 1 : 2", "v := a ? $ : 2", "v := a ? 1 : $", "v := ($)",
@@ -235,6 +237,8 @@ var compoundForms = []compoundForm{
 	cf(true, false, "for ; ; a++ {", "}"),
 	cf(true, false, "for @ in a {", "}"),
 	cf(true, false, "for @, @ in m {", "}"),
+	cf(true, false, "for @, _ in m {", "}"),
+	cf(true, false, "for _, @ in m {", "}"),
 	cf(false, true, "@ := func(x, ...y) {", "}"),
 	cf(false, true, "f(func() {", "})"),
 }
